@@ -327,11 +327,26 @@ func propC12(t *rapid.T) {
 			}
 			tx := wire.NewMsgTx()
 			tx.AddTxIn(sim.Spend(c.Op.Hash, c.Op.Index, wire.MaxTxInSequenceNum))
+			both := 0
+			if ia.Class == massutil.AddressClassWitnessStaking {
+				// a staking-class address may be paid, in the same transaction, in its standard form as well
+				// (before or after the staking output): the staking address has been paid either way
+				both = rapid.IntRange(0, 2).Draw(t, "alsoStandardForm")
+			}
+			if both == 1 {
+				tx.AddTxOut(wire.NewTxOut(30000000, sim.StdScript(ia.Hash)))
+			}
 			tx.AddTxOut(wire.NewTxOut(100000000, script))
-			tx.AddTxOut(wire.NewTxOut(c.Value-100001000, sim.StdScript(w.strangers[1])))
+			if both == 2 {
+				tx.AddTxOut(wire.NewTxOut(30000000, sim.StdScript(ia.Hash)))
+			}
+			if both > 0 {
+				w.flag("both-forms-of-one-key-in-one-transaction")
+			}
+			tx.AddTxOut(wire.NewTxOut(c.Value-130001000, sim.StdScript(w.strangers[1])))
 			w.mineFixed(t, []*wire.TxOut{wire.NewTxOut(5000000000, sim.StdScript(w.strangers[2]))}, []*wire.MsgTx{tx}, true)
 			w.deliverAll(t)
-			w.logf("pay issued #%d", j)
+			w.logf("pay issued #%d (both forms: %d)", j, both)
 		},
 		"reorg": func(t *rapid.T) {
 			h := int(w.node.Height())
